@@ -267,6 +267,12 @@ def class_configs(quick):
     for sizes in [(2, 3), (3, 3), (2, 2, 2)]:
         C.append(("KronAddedDiag", {"sizes": sizes, "dk": "const"}, int(math.prod(sizes))))
     C.append(("KronAddedDiag", {"sizes": (2, 3), "dk": "general"}, 6))
+    # Kronecker-structured diagonal (KroneckerProductDiagLinearOperator with one factor per Kronecker factor): every factor a
+    # ConstantDiag ("kconst": eigen-decomposition of the K_i re-used) / general Diag factors ("kdiag": symmetrised factors)
+    for sizes in [(2, 3), (2, 2, 2)]:
+        C.append(("KronAddedDiag", {"sizes": sizes, "dk": "kconst"}, int(math.prod(sizes))))
+    for sizes in [(3, 2), (2, 2, 2), (1, 3)]:
+        C.append(("KronAddedDiag", {"sizes": sizes, "dk": "kdiag"}, int(math.prod(sizes))))
     for n, k in [(5, 2), (8, 3), (4, 1), (3, 3)]:
         C.append(("LowRankRootAddedDiag", {"rank": k}, n))
     for k, m in [(2, 3), (3, 2), (1, 4), (4, 1)]:
@@ -379,6 +385,12 @@ def cells(ctx):
                     for mcs in (N - 1, N):
                         if mcs >= 0:
                             extra.append(dict(mcs=mcs, fast=True, cgtol=d["cgtol"], maxit=d["maxit"], mps=d["mps"], minps=d["minps"], memeff=False))
+                # Kronecker-structured diagonal: the structured branch is taken for N > max_cholesky_size; the "kconst" branch
+                # diagonalises every factor with LinearOperator.diagonalization(), which is exact (symeig) only for factors of
+                # size <= max_cholesky_size: a row between the largest factor and N
+                if cls == "KronAddedDiag" and kw.get("dk") in ("kconst", "kdiag") and max(kw["sizes"]) < N:
+                    extra.append(dict(mcs=max(kw["sizes"]), fast=True, cgtol=d["cgtol"], maxit=d["maxit"], mps=d["mps"], minps=d["minps"],
+                                      memeff=bool(ki % 2)))
                 # preconditioner guard thresholds (AddedDiag): n < min_preconditioning_size, max_preconditioner_size == 0
                 if cls == "AddedDiag" and kind == "mat":
                     for minps, mps in ((N, 5), (N + 1, 5), (N, 0), (0, 1), (0, N + 3)):
@@ -451,7 +463,8 @@ RHS_CONFIGS = [
     ("Chol", {"upper": False}, 3), ("Chol", {"upper": True}, 3), ("Tri", {"upper": False}, 3), ("Tri", {"upper": True}, 3),
     ("CholDiag", {"upper": False}, 4), ("Kron", {"sizes": (2, 3)}, 6), ("Kron", {"sizes": (2, 2, 2)}, 8),
     ("Kron", {"sizes": (2, 3), "fcls": ["Dense", "Diag"]}, 6), ("KronAddedDiag", {"sizes": (2, 3), "dk": "const"}, 6),
-    ("KronAddedDiag", {"sizes": (2, 3), "dk": "general"}, 6), ("LowRankRootAddedDiag", {"rank": 2}, 5),
+    ("KronAddedDiag", {"sizes": (2, 3), "dk": "general"}, 6), ("KronAddedDiag", {"sizes": (2, 3), "dk": "kdiag"}, 6),
+    ("LowRankRootAddedDiag", {"rank": 2}, 5),
     ("BlockDiag", {"blocks": 2}, 3), ("BlockInterleaved", {"blocks": 3}, 2), ("BatchRepeat", {"rep": (2,)}, 3), ("Permutation", {}, 4),
     ("CholOf", {"base": "Dense", "upper": True}, 5), ("CholOf", {"base": "BlockDiag", "base_kw": {"blocks": 2}, "upper": True}, 3),
 ]
@@ -826,6 +839,11 @@ def key_of(cell, spec, obs, fail):
          "family": cell.get("fam", "grid"), "rhsmod": cell.get("rhsmod")}
     if isinstance(spec.get("base"), dict):
         k["base"] = spec["base"]["cls"]
+    if cell["cls"] == "KronAddedDiag":
+        k["diag_kind"] = cell["kw"].get("dk") if isinstance(cell.get("kw"), dict) else None
+        # the structured branch with a factor larger than max_cholesky_size (its diagonalization() then runs Lanczos)
+        k["factor_above_max_cholesky_size"] = bool(cell["st"]["fast"] and cell["N"] > cell["st"]["mcs"]
+                                                   and isinstance(cell.get("kw"), dict) and max(cell["kw"]["sizes"]) > cell["st"]["mcs"])
     return k
 
 
